@@ -1053,6 +1053,20 @@ _GAIT = "env/unitree/g1/gait.py"
 # ------------------------------------------------------------------------------------------------ C14: membership tests (per component)
 _SP_PRIMS = {"try_cast": Prim(lambda ex, n, a, k: a[0])}
 
+# ------------------------------------------------------------------------------------------------ C19: evaluation helper rollout_scan
+def _rscan_bind():
+    pol = acpol_obj("P")
+
+    def call(ex, n, args, kwargs):
+        if len(args) != 2 or set(kwargs) - {"key"}:
+            fail(n, "policy call form")
+        kk = kwargs["key"].t if "key" in kwargs else "nil"
+        x = f"(p_act P {args[0].t} {args[1].t} {kk} None)"
+        return (Sc("O", f"(fst (fst (fst {x})))"), Sc("R", f"(snd (fst (fst {x})))"))
+    pol.fields["__call__"] = Prim(call)
+    return {"env": env_obj("E"), "policy": pol, "key": K("k"), "deterministic": B("det"), "max_steps": Z("(Z.of_nat max_steps)")}
+
+
 KERNELS = {
     "C14": [Kernel("discrete_contains", "space/discrete.py", "Discrete", "contains", lambda: {"self": Obj({"n": Z("n")}, "Discrete"), "x": R("x")},
                    "(n : Z) (x : Q)", lambda res, ex: [("value", "bool", term_of(res))], prims=_SP_PRIMS, carrier="Q"),
@@ -1181,7 +1195,10 @@ KERNELS = {
                    "{Ob Ac Ps : Type} (b : @soa Ob Ac Ps)", _rb_cs_out, carrier="Q"),
             Kernel("sample", "buffer/replay.py", "ReplayBuffer", "sample", _rb_sample_bind,
                    "{Ob Ac Ps : Type} (b : @soa Ob Ac Ps) (batch : nat) (k : kpath)", _rb_sample_out, carrier="Q")],
-    "C19": [Kernel("lnext", "callback/logging/callback.py", "LoggingCallbackStepState", "next", _lnext_bind,
+    "C19": [Kernel("rscan", "benchmark/__init__.py", None, "rollout_scan", _rscan_bind,
+                   "{S PS O : Type} (E : env S Q O) (P : acpol PS Q O) (det : bool) (max_steps : nat) (k : kpath)",
+                   lambda res, ex: [("value", "Q", term_of(res, "R"))], carrier="Q"),
+            Kernel("lnext", "callback/logging/callback.py", "LoggingCallbackStepState", "next", _lnext_bind,
                    "(alpha : Q) (s : lstate) (r : Q) (d : bool)", _lnext_out, carrier="Q",
                    prims={"LoggingCallbackStepState": ctor_prim("callback/logging/callback.py", "LoggingCallbackStepState")})],
     "C03": [Kernel("gae", "buffer/rollout.py", "RolloutBuffer", "compute_returns_and_advantages", _gae_bind,
@@ -1247,7 +1264,7 @@ def coq_text(pid, imports=()):
     return "\n".join(parts)
 
 
-IMPORTS = {"C14": ("Spaces",), "C09": ("Env",), "C10": ("Env",), "C19": ("Logging",), "C06": ("Env", "Replay"), "C01": ("Env",), "C13": ("Env",), "C04": ("Env", "OnPolicy"), "C05": ("Env", "OnPolicy", "Replay", "OffPolicy"), "C20": ("Gait",), "C11": ("Env", "Observers"), "C12": ("Env", "OnPolicy")}
+IMPORTS = {"C14": ("Spaces",), "C09": ("Env",), "C10": ("Env",), "C19": ("Env", "OnPolicy", "Logging"), "C06": ("Env", "Replay"), "C01": ("Env",), "C13": ("Env",), "C04": ("Env", "OnPolicy"), "C05": ("Env", "OnPolicy", "Replay", "OffPolicy"), "C20": ("Gait",), "C11": ("Env", "Observers"), "C12": ("Env", "OnPolicy")}
 
 
 def generate(pid, coq_dir: Path):
